@@ -447,3 +447,155 @@ def corrupt_near(rnd, f, v, depth=0):
         return corrupt_near(rnd, rnd.choice(f["fs"]), v, depth + 1)
     xs = near(f)
     return rnd.choice(xs) if xs else G.gen_any(rnd)
+
+
+# ------------------------------------------------------------------ defaults of OMITTED fields
+
+DEFAULT_WRAPPERS = ("id", "anyof", "anyof-last", "oneof", "not", "arrpos", "arr", "mapv", "set")
+CONST_WRAPPERS = ("id", "anyof", "oneof", "not")
+OMIT_KINDS = ("ctor", "deser", "from_object", "from_other", "cast", "from_mapping")
+OMIT_FOLLOW = (None, ["clone", []], ["deepcopy"], None, ["pickle"], ["copy"], ["clone", []])
+
+
+def class_src(c):
+    """structgen.class_src, with the options of an argument-less declaration joined correctly
+    (`Boolean(, default=..)` is what the shared renderer writes; other checks rely on its output as it is)."""
+    from harness import structgen as SG0
+    return SG0.class_src(c).replace("(, ", "(")
+
+
+def _definable(src, fact=None):
+    """Does typedpy accept this class statement?  (generator guidance only)"""
+    ns = {}
+    try:
+        exec(G.IMPORTS, ns)
+        exec("def _fact(key):\n    return lambda: _FACT[key]\n", ns)
+        ns["_FACT"] = _DefaultDict(fact or {})
+        exec(src, ns)
+        return ns
+    except Exception:  # noqa
+        return None
+
+
+class _DefaultDict(dict):
+    def __missing__(self, key):
+        raise KeyError(key)
+
+
+def _accepts(ns, cname, x):
+    try:
+        ns[cname](f=G.unreify(x))
+        return True
+    except Exception:  # noqa
+        return False
+
+
+def omit_chains(k_cls, target, sub, kinds, follow, prefix):
+    """Chains that build `target` (or, for a cast, its twin `sub`, a subclass of k_cls) WITHOUT supplying f."""
+    out = []
+    kw = [("k", S_("a"))]
+    tail = [list(follow)] if follow else []
+    for kind in kinds:
+        if kind == "ctor":
+            ch = [["ctor", target, kw]]
+        elif kind == "deser":
+            ch = [["deser", target, kw, "Deserializer" if len(prefix) % 2 else "deserialize_structure", True]]
+        elif kind == "from_object":
+            ch = [["from_object", target, kw, [], ["k", "f"]]]
+        elif kind == "from_mapping":
+            ch = [["from_mapping", target, kw, []]]
+        elif kind == "from_other":
+            ch = [["ctor", k_cls, kw], ["from_other", target, []]]
+        elif kind == "cast":
+            if sub is None:
+                continue
+            ch = [["ctor", k_cls, kw], ["cast", sub]]
+        else:
+            continue
+        out.append(list(prefix) + ch + tail)
+    return out
+
+
+def defaults_lattice(tier, seed):
+    """[(tag, class ASTs, [(stream tag, leaf shape, chain)])]: every leaf declaration (alone and under the wrappers
+    that delegate or skip validation) as a field `f` that the caller OMITS, with
+      - a default FACTORY made to return every near-miss / falsy / conversion-needing value of the declaration
+        (it returned a conforming value when the class was defined), and
+      - every CONSTANT default typedpy lets the class be defined with (truthy ones are examined at definition,
+        falsy ones are not: `if default:`),
+    built through every entry point that can leave a field out.  The stored value of an omitted field must
+    satisfy the declaration (or the entry point must refuse)."""
+    from harness import structgen as SG
+    quick = tier == "quick"
+    groups = []
+    wr = {w[0]: w for w in WRAPPERS}
+    for li, g in enumerate(leaves()):
+        if g["t"] == "ref":
+            continue
+        pre = "Y%d_%d" % (seed, li)
+        kcls = {"name": pre + "K", "fields": [{"name": "k", "field": STR}], "required": ["k"], "additional": False}
+        asts = [kcls]
+        chains = []
+        xs = near(g)
+        numeric = g["t"] == "num"
+        for wi, wname in enumerate(DEFAULT_WRAPPERS):
+            _n, need_hash, mk_decl, mk_val = wr[wname]
+            if need_hash and not hashable_leaf(g):
+                continue
+            if quick and wname != "id" and numeric and (li + wi) % 3:
+                continue
+            decl = mk_decl(g)
+            probe = _definable(class_src({"name": "P", "fields": [{"name": "f", "field": decl}], "required": ["f"]}))
+            if probe is None:
+                continue
+            y = next((x for x in xs if _accepts(_definable(class_src(
+                {"name": "P", "fields": [{"name": "f", "field": g}], "required": ["f"]})) or {}, "P", x)), None) \
+                if wname != "id" else None
+            cand = xs if wname == "id" else inner(g, 8 if quick else 14)
+            vals = _dedupe([mk_val(x, y) for x in cand if not (need_hash and not G.is_hashable(x))])
+            good = next((v for v in vals if _accepts(probe, "P", v)), None)
+            if good is None:
+                continue
+            # ---- factory
+            key = "%s.%s" % (pre, wname)
+            dfac = {"name": "%sF%d" % (pre, wi), "fields": [{"name": "k", "field": STR},
+                                                             {"name": "f", "field": decl, "default": good, "factory": key}],
+                    "required": ["k"], "additional": False}
+            dsub = {"name": "%sG%d" % (pre, wi), "base": kcls["name"],
+                    "fields": [{"name": "f", "field": decl, "default": good, "factory": key}], "required": ["k"],
+                    "additional": False}
+            if _definable(class_src(dfac), {key: G.unreify(good)}) is None:
+                continue                # this declaration takes no `default=` (the multi-field wrappers)
+            asts += [dfac, dsub]
+            for vi, v in enumerate(vals):
+                nk = len(OMIT_KINDS)
+                kinds = OMIT_KINDS if not quick else tuple(OMIT_KINDS[(vi + wi + li + 3 * j) % nk]
+                                                           for j in range(2 if wname == "id" else 1))
+                follow = OMIT_FOLLOW[(vi + wi) % len(OMIT_FOLLOW)]
+                for ch in omit_chains(kcls["name"], dfac["name"], dsub["name"], kinds, follow, [["factory", key, v]]):
+                    chains.append(("default-factory:" + wname, G.shape(g), ch))
+            # ---- constants
+            if wname not in CONST_WRAPPERS:
+                continue
+            consts = vals if not quick else _dedupe(vals[:5] + [v for v in vals if v in FALSY or not G.unreify(v)])
+            for ci, d in enumerate(consts):
+                if d[0] in ("none", "other"):
+                    continue            # default=None means "no default"
+                cst = {"name": "%sC%d_%d" % (pre, wi, ci),
+                       "fields": [{"name": "k", "field": STR}, {"name": "f", "field": decl, "default": d}],
+                       "required": ["k"], "additional": False}
+                try:
+                    src = class_src(cst)
+                except Exception:  # noqa
+                    continue
+                if _definable(src) is None:
+                    continue            # examined at definition time and refused: nothing to construct
+                asts.append(cst)
+                nk = len(OMIT_KINDS)
+                kinds = tuple(k for k in OMIT_KINDS if k != "cast") if not quick else \
+                    tuple(OMIT_KINDS[(ci + wi + li + 2 * j) % nk] for j in range(2))
+                follow = OMIT_FOLLOW[(ci + wi + 1) % len(OMIT_FOLLOW)]
+                for ch in omit_chains(kcls["name"], cst["name"], None, kinds, follow, []):
+                    chains.append(("default-constant:" + wname, G.shape(g), ch))
+        groups.append((pre, asts, chains))
+    return groups
